@@ -117,6 +117,7 @@ def extract(tier='quick', verbose=False):
     try:
         marker = os.path.join(base, 'meta.json')
         if os.path.exists(marker):
+            os.utime(base, None)  # in use: keeps concurrent runs on other trees from pruning it
             with open(marker) as f:
                 return base, json.load(f)
         t0 = time.time()
@@ -185,7 +186,8 @@ def extract(tier='quick', verbose=False):
         # keep only the most recent fact sets
         olds = sorted(glob.glob(os.path.join(WORK, 'facts-*')), key=os.path.getmtime)
         for o in olds[:-4]:
-            shutil.rmtree(o, ignore_errors=True)
+            if time.time() - os.path.getmtime(o) > 1800:  # never one that a concurrent run (another tree) may still be reading
+                shutil.rmtree(o, ignore_errors=True)
         return base, meta
     finally:
         fcntl.flock(lockf, fcntl.LOCK_UN)
